@@ -227,10 +227,63 @@ fn generate_long_haul(rng: &mut Rng) -> TScenario {
     TScenario { lat, lon, max_range: 1e9, events }
 }
 
+/// Crowded sky: a few hundred distinct addresses with a handful of frames each and expiry cycles
+/// (anything that depends on the number of tracked aircraft, or on many add/expire cycles).
+fn generate_crowded(rng: &mut Rng) -> TScenario {
+    let lat = 35.0;
+    let lon = -80.0;
+    let n = 100 + rng.usize_below(200);
+    let filter_t = *rng.pick(&[1u64, 2, 5]);
+    let mut evs: Vec<(u64, Vec<u8>)> = vec![];
+    for i in 0..n {
+        let addr = if i % 7 == 0 { [(i >> 8) as u8, i as u8, 0] } else { [rng.next_u64() as u8, rng.next_u64() as u8, rng.next_u64() as u8] };
+        let mut tx = Tx {
+            addr,
+            df18_cf: if rng.chance(0.2) { Some(rng.below(8) as u8) } else { None },
+            ca: 5,
+            start: wire::destination((lat, lon), rng.f64_range(0.0, 360.0), rng.f64_range(5.0, 300.0)),
+            heading: rng.f64_range(0.0, 360.0),
+            speed_kms: 0.2,
+            alt_ft: 20_000,
+            alt_mode: 0,
+            parity_random: false,
+            next_odd: rng.coin(),
+            callsign: format!("C{i}"),
+            active_from: 0.0,
+            active_to: 1e9,
+            teleports: vec![],
+        };
+        let t0 = rng.f64_range(0.0, 12.0);
+        for k in 0..1 + rng.below(3) {
+            let t = t0 + 0.4 * k as f64 + if rng.chance(0.2) { rng.f64_range(2.0, 8.0) } else { 0.0 };
+            let bytes = match rng.below(4) {
+                0 => gen_ident(rng, &mut tx),
+                1 => gen_velocity(rng, &tx),
+                2 => gen_position(rng, &mut tx, t),
+                _ => gen_other_es(rng, &tx),
+            };
+            evs.push(((t * 1e9) as u64, bytes));
+        }
+    }
+    evs.sort();
+    evs.truncate(600);
+    let mut events = vec![];
+    for (i, (t, b)) in evs.iter().enumerate() {
+        events.push(TEv::Frame { t: *t, hex: wire::hex(b), note: String::new() });
+        if i % 25 == 24 {
+            events.push(TEv::Prune { t: *t, secs: filter_t });
+        }
+    }
+    TScenario { lat, lon, max_range: 500.0, events }
+}
+
 #[allow(clippy::too_many_lines)]
 pub fn generate(rng: &mut Rng, fault_free: bool, focus: &str) -> TScenario {
     if focus == "C14" && !fault_free && rng.chance(0.003) {
         return generate_long_haul(rng);
+    }
+    if (focus == "C12" || focus == "C15") && !fault_free && rng.chance(0.002) {
+        return generate_crowded(rng);
     }
     // ---- swarm configuration of this run
     let rate = |rng: &mut Rng, on: bool| if on && !fault_free { *rng.pick(&[0.01, 0.03, 0.1, 0.25]) } else { 0.0 };
